@@ -34,6 +34,9 @@ type C10Case struct {
 	Warm bool `json:"warm,omitempty"`
 	// Blackout: the backing store is down: every storage operation the request makes fails
 	Blackout bool `json:"blackout,omitempty"`
+	// Repeat: the fault persists and the same request comes again (a probe polling, a user agent retrying): the second
+	// reply is the one judged, the first must have ended without a panic
+	Repeat bool `json:"repeat,omitempty"`
 }
 
 var c10Scenarios = []string{
@@ -44,7 +47,7 @@ var c10Scenarios = []string{
 
 var c10Signing = map[string]bool{"callback-post-done": true, "callback-redirect-done": true, "callback-body-done": true, "attrquery": true, "metadata-signed": true}
 
-var c10KeyKinds = []string{"error", "timeout", "canceled", "nil", "nokey", "zerokey", "nocert", "emptycert", "errval"}
+var c10KeyKinds = []string{"error", "timeout", "canceled", "uncomparable", "nil", "nokey", "zerokey", "nocert", "emptycert", "errval"}
 
 // c10KindsOf lists the fault kinds of an operation: a returned error; for lookups also an error accompanied by a usable value
 // (callers must go by the error); for the user-info setters also an error after part of the record was delivered.
@@ -53,14 +56,14 @@ func c10KindsOf(op string) []string {
 	case "GetResponseSigningKey", "GetMetadataSigningKey":
 		return c10KeyKinds
 	case "AuthRequestByID":
-		return []string{"error", "timeout", "canceled", "notfound", "errval", "typednil"}
+		return []string{"error", "timeout", "canceled", "uncomparable", "notfound", "errval", "typednil"}
 	case "GetEntityByID", "GetEntityIDByAppID":
-		return []string{"error", "timeout", "canceled", "notfound", "errval"}
+		return []string{"error", "timeout", "canceled", "uncomparable", "notfound", "errval"}
 	case "SetUserinfoWithUserID", "SetUserinfoWithLoginName":
-		return []string{"error", "timeout", "canceled", "partial"}
+		return []string{"error", "timeout", "canceled", "uncomparable", "partial"}
 	}
 	// the shape of the error (a timeout that says so through Timeout(), a cancellation, a plain sentinel) must not matter
-	return []string{"error", "timeout", "canceled"}
+	return []string{"error", "timeout", "canceled", "uncomparable"}
 }
 
 // c10Build returns the world spec and the request of a scenario variant.
@@ -219,6 +222,14 @@ func c10Run(c C10Case) c10Result {
 		w.Store.SetFaults(c.Faults) // also resets the call counters: occurrences count from here
 		w.Store.ResetLog()
 	}
+	if c.Repeat {
+		first, fhang := doTerminating(w, hr)
+		if fhang != "" || first.Panic != "" {
+			c.Repeat = false
+			r := c10Run(c) // report it as the plain case it is
+			return r
+		}
+	}
 	rep, hang := doTerminating(w, hr)
 	res := c10Result{ops: map[string]int{}, status: rep.Status}
 	if hang != "" {
@@ -260,8 +271,14 @@ func c10Run(c C10Case) c10Result {
 		}
 	}
 	zeroOnly = zeroOnly && nFired > 0
+	signingOp := "GetResponseSigningKey"
+	if strings.HasPrefix(c.Scenario, "metadata") {
+		signingOp = "GetMetadataSigningKey"
+	}
 	for _, f := range c.Faults {
-		if f.Kind == "zerokey" && f.Occurrence != 0 {
+		// ... and only the key that signs in this scenario counts (the metadata document merely publishes the response key's
+		// certificate)
+		if f.Kind == "zerokey" && (f.Occurrence != 0 || f.Op != signingOp) {
 			zeroEvery = false
 		}
 	}
@@ -357,6 +374,13 @@ func TestC10Enum(t *testing.T) {
 					cases = append(cases, C10Case{Scenario: sc, Variant: v, Faults: []world.Fault{p}})
 					cases = append(cases, C10Case{Scenario: sc, Variant: v, Faults: []world.Fault{p}, Warm: true})
 				}
+				seenRepeat := map[string]bool{}
+				for _, p := range points {
+					if k := p.Op + "/" + p.Kind; !seenRepeat[k] {
+						seenRepeat[k] = true
+						cases = append(cases, C10Case{Scenario: sc, Variant: v, Faults: []world.Fault{{Op: p.Op, Occurrence: 0, Kind: p.Kind}}, Repeat: true})
+					}
+				}
 				for _, alg := range []string{"bogus", "sha512", "empty"} {
 					cases = append(cases, C10Case{Scenario: sc, Variant: v, AlgFault: alg})
 				}
@@ -389,7 +413,7 @@ func TestC10Enum(t *testing.T) {
 					if nt {
 						fired++
 					}
-					col.Case(nt, ev.Fingerprint(c.Scenario, c.Faults, c.AlgFault, c.Warm, c.Blackout), []string{"scenario/" + c.Scenario, fmt.Sprintf("fired=%v", r.fired), fmt.Sprintf("faults=%d", len(c.Faults)), fmt.Sprintf("warm=%v", c.Warm), fmt.Sprintf("blackout=%v", c.Blackout)}, nil)
+					col.Case(nt, ev.Fingerprint(c.Scenario, c.Faults, c.AlgFault, c.Warm, c.Blackout, c.Repeat), []string{"scenario/" + c.Scenario, fmt.Sprintf("fired=%v", r.fired), fmt.Sprintf("faults=%d", len(c.Faults)), fmt.Sprintf("warm=%v", c.Warm), fmt.Sprintf("blackout=%v", c.Blackout)}, nil)
 					for _, vv := range r.vs {
 						if strings.Contains(vv.Key, "blocked-forever") || strings.Contains(vv.Key, "does-not-terminate") {
 							hung = true
